@@ -223,6 +223,67 @@ def rule_width(repo, rule):
     return width_methods
 
 
+def _direct_bit_order(fi, name, ens):
+    """None when the wrapper's run-time check and its constraint both state the order relation `name` between self and the
+    converted operand as a relation on their difference; otherwise what is wrong."""
+    from ..flatten import resolve_locals, _FoldConstIfExp
+    from ..loader import clone
+    s_, o_ = fi.params[0], fi.params[1]
+    conv = [a for a in ast.walk(fi.node) if isinstance(a, ast.Assign) and len(a.targets) == 1 and isinstance(a.value, ast.Call)
+            and norm(a.value.func).endswith(ens) and a.value.args and norm(a.value.args[0]) == o_]
+    if not conv:
+        return "the operand is not converted with %s" % ens
+    oc = norm(conv[0].targets[0])
+    S, O = P.sym("s"), P.sym("o")
+    env = {"%s.lc" % s_: S, "%s.lc.value" % s_: S, "%s.lc" % oc: O, "%s.lc.value" % oc: O,
+           "LinComb.ZERO": P(), "LinComb.ONE_SAFE": P.const(1)}
+    diff = (O - S) if name in ("assert_lt", "assert_le") else (S - O)
+    strict = name in ("assert_lt", "assert_gt")
+
+    def poly(e):
+        e = _FoldConstIfExp().visit(clone(resolve_locals(fi.node, e)))
+        t_ = norm(e).replace(".value", "")
+        return poly_of(ast.parse(t_, mode="eval").body, {k.replace(".value", ""): v for k, v in env.items()}, strict=True)
+    # the run-time check: raises (with checks on) exactly when the relation fails
+    tests = [t for t in raise_tests(fi)]
+    okc = False
+    for t in tests:
+        te = _FoldConstIfExp().visit(clone(resolve_locals(fi.node, strip_ignore(t.test))))
+        te = strip_ignore(te)
+        cmps = te.values if isinstance(te, ast.BoolOp) and isinstance(te.op, ast.And) else [te]
+        if not all(isinstance(c, ast.Compare) and len(c.ops) == 1 and isinstance(c.ops[0], ast.NotEq) for c in cmps):
+            continue
+        lefts = [poly(c.left) for c in cmps]
+        consts = sorted(norm(c.comparators[0]) for c in cmps)
+        if any(l is None or l != diff for l in lefts):
+            continue
+        if (strict and consts == ["1"]) or (not strict and consts == ["0", "1"]):
+            okc = "ignore_errors()" in norm(t.test) or any(isinstance(p_, ast.If) and "ignore_errors()" in norm(p_.test) for p_ in parents(t))
+    if not okc:
+        return "the run-time check does not accept exactly the pairs of bits with %s %s (or is not suppressible)" % (
+            "difference 1" if strict else "difference 0 or 1", "")
+    # the constraint
+    okg = False
+    for c in ast.walk(fi.node):
+        if not isinstance(c, ast.Call):
+            continue
+        if isinstance(c.func, ast.Attribute) and c.func.attr == "assert_zero" and strict:
+            p = poly(c.func.value)
+            okg = okg or (p is not None and (p == diff - 1 or p == 1 - diff))
+        if norm(c.func).split(".")[-1] == "add_constraint" and len(c.args) >= 3:
+            ps = [poly(x) for x in c.args[:3]]
+            if None in ps:
+                continue
+            res = ps[0] * ps[1] - ps[2]
+            if strict:
+                okg = okg or False
+            else:
+                okg = okg or res == diff * (1 - diff) or res == -(diff * (1 - diff))
+    if not okg:
+        return "no constraint states %s on the difference of the two wires" % ("== 1" if strict else "in {0, 1}")
+    return None
+
+
 def rule_delegation(repo, rule):
     for mod, cn, ens in (("pysnark.boolean", "LinCombBool", "_ensurebool"), ("pysnark.fixedpoint", "LinCombFxp", "_ensurefxp")):
         ci = repo.cls(mod, cn)
@@ -232,6 +293,17 @@ def rule_delegation(repo, rule):
             calls = [c for c in ast.walk(fi.node) if isinstance(c, ast.Call) and isinstance(c.func, ast.Attribute)
                      and norm(c.func.value) == "self.lc"]
             where = fi.loc()
+            if len(calls) != 1 and cn == "LinCombBool" and name in ("assert_lt", "assert_le", "assert_gt", "assert_ge") and not calls:
+                # not delegated: an order assertion between two declared bits stated on their difference.  For bits s, o:
+                #   s < o  iff  o - s == 1        s <= o  iff  o - s in {0, 1}        (and mirrored)
+                # the run-time check and the constraint must both say exactly that about the converted operands
+                verdict = _direct_bit_order(fi, name, ens)
+                if verdict is None:
+                    rule.ok(where, fi.fq, "%s: check and constraint both state the bit relation on %s" % (
+                        name, "o - s" if name in ("assert_lt", "assert_le") else "s - o"))
+                else:
+                    rule.violation(where, fi.fq, norm(fi.node.body)[:100], verdict, "%s/direct" % fi.qual)
+                continue
             if len(calls) != 1:
                 rule.violation(where, fi.fq, norm(fi.node.body)[:100], "wrapper does not delegate to exactly one LinComb method",
                                "%s/count" % fi.qual)
@@ -240,7 +312,7 @@ def rule_delegation(repo, rule):
             problems = []
             if c.func.attr != name:
                 problems.append("delegates to `%s`" % c.func.attr)
-            others = [p for p in fi.params[1:] if p != "err"]
+            others = [p for p in fi.params[1:] if p != "err" and p not in WIDTH_PARAMS]      # a width is a public integer, not an operand
             conv = {}
             for a in ast.walk(fi.node):
                 if isinstance(a, ast.Assign) and isinstance(a.value, ast.Call) and norm(a.value.func).endswith(ens) and a.value.args:
